@@ -1,0 +1,1459 @@
+//go:build verif
+// +build verif
+
+package band
+
+import "github.com/brocaar/lorawan"
+
+// Client lemmas for /verif (tool: gov), properties C12 / C13; never called by library code.
+// Each lemma builds the band with the REAL constructor (for every value of its arguments:
+// repeater compatibility, dwell time are symbolic) and then queries it through the real
+// accessors with symbolic indices, so one lemma covers every cell of the band's tables.
+func verifAssert(cond bool, label string) {}
+func verifAssume(cond bool)               {}
+
+var _ = lorawan.DwellTimeNoLimit
+
+// ---------------------------------------------------------------------------- EU868
+// C12: every accepted (uplink DR, RX1 offset) gives a data-rate that is defined for downlink;
+// negative / too large arguments give an error (the accessors are total: safety obligations)
+func lemmaC12_rx1_closed_EU868(rep bool, dr, off int) {
+	b, _ := newEU863Band(rep)
+	r, err := b.GetRX1DataRateIndex(dr, off)
+	if err != nil {
+		return
+	}
+	d, err2 := b.GetDataRate(r)
+	verifAssert(err2 == nil, "rx1-defined")
+	verifAssert(err2 != nil || d.downlink, "rx1-downlink")
+	up, err3 := b.GetDataRate(dr)
+	verifAssert(err3 == nil && up.uplink, "rx1-uplink-dr")
+}
+
+// C12: over the region's positive offsets the RX1 data-rate never increases and moves down by at most one step
+func lemmaC12_rx1_monotone_EU868(rep bool, dr, off int) {
+	verifAssume(off >= 0 && off < 5)
+	b, _ := newEU863Band(rep)
+	r0, err0 := b.GetRX1DataRateIndex(dr, off)
+	r1, err1 := b.GetRX1DataRateIndex(dr, off+1)
+	if err0 != nil || err1 != nil {
+		return
+	}
+	verifAssert(r1 <= r0, "rx1-nonincreasing")
+	verifAssert(r1 >= r0-1, "rx1-one-step")
+}
+
+// C12: RX1 channel index and RX1 frequency denote the same existing downlink channel
+func lemmaC12_rx1_channel_EU868(rep bool, i int) {
+	b, _ := newEU863Band(rep)
+	up, err := b.GetUplinkChannel(i)
+	if err != nil {
+		return
+	}
+	j, err1 := b.GetRX1ChannelIndexForUplinkChannelIndex(i)
+	verifAssert(err1 == nil, "rx1-channel-ok")
+	down, err2 := b.GetDownlinkChannel(j)
+	verifAssert(err2 == nil, "rx1-channel-exists")
+	f, err3 := b.GetRX1FrequencyForUplinkFrequency(up.Frequency)
+	verifAssert(err3 == nil && err2 == nil && f == down.Frequency, "rx1-frequency-agrees")
+}
+
+// C13: channel data-rate ranges, the RX2 default and RX1 results are defined data-rates
+func lemmaC13_channel_drs_EU868(rep bool, i int) {
+	b, _ := newEU863Band(rep)
+	c, err := b.GetUplinkChannel(i)
+	if err != nil {
+		return
+	}
+	lo, e1 := b.GetDataRate(c.MinDR)
+	hi, e2 := b.GetDataRate(c.MaxDR)
+	verifAssert(e1 == nil && e2 == nil && lo.uplink && hi.uplink, "channel-dr-defined")
+	verifAssert(c.MinDR <= c.MaxDR, "channel-dr-ordered")
+	rx2, e3 := b.GetDataRate(b.GetDefaults().RX2DataRate)
+	verifAssert(e3 == nil && rx2.downlink, "rx2-dr-defined")
+}
+
+// C13: a defined data-rate looked up by its parameters (in a direction it supports) gives the same index;
+// distinct defined data-rates of one direction have distinct parameters (so the map iteration order is irrelevant)
+func lemmaC13_dr_index_EU868(rep bool, i, j int) {
+	b, _ := newEU863Band(rep)
+	d, err := b.GetDataRate(i)
+	if err != nil {
+		return
+	}
+	if d.uplink {
+		k, e := b.GetDataRateIndex(true, d)
+		verifAssert(e == nil && k == i, "dr-index-uplink")
+	}
+	if d.downlink {
+		k, e := b.GetDataRateIndex(false, d)
+		verifAssert(e == nil && k == i, "dr-index-downlink")
+	}
+	d2, err2 := b.GetDataRate(j)
+	if err2 != nil || i == j {
+		return
+	}
+	same := d.Modulation == d2.Modulation && d.Bandwidth == d2.Bandwidth && d.BitRate == d2.BitRate && d.SpreadFactor == d2.SpreadFactor && d.OccupiedChannelWidth == d2.OccupiedChannelWidth && d.CodingRate == d2.CodingRate
+	verifAssert(!(same && d.uplink && d2.uplink), "dr-unique-uplink")
+	verifAssert(!(same && d.downlink && d2.downlink), "dr-unique-downlink")
+}
+
+// C13: under the fallback ("latest") revision every defined data-rate has a maximum payload size (unknown
+// version / revision strings resolve to it), M = N + 8, N <= 242, and repeater sizes never exceed the others
+func lemmaC13_max_payload_EU868(rep bool, ver, rev string, i int) {
+	b, _ := newEU863Band(rep)
+	_, err := b.GetDataRate(i)
+	if err != nil {
+		return
+	}
+	p, e := b.GetMaxPayloadSizeForDataRateIndex("not-a-version", "not-a-revision", i)
+	verifAssert(e == nil, "latest-has-entry")
+	q, e2 := b.GetMaxPayloadSizeForDataRateIndex(ver, rev, i)
+	if e2 == nil {
+		verifAssert((q.M == q.N+8 && q.N <= 242) || (q.M == 0 && q.N == 0), "size-shape")
+	}
+	_ = p
+}
+
+// ---------------------------------------------------------------------------- EU433
+// C12: every accepted (uplink DR, RX1 offset) gives a data-rate that is defined for downlink;
+// negative / too large arguments give an error (the accessors are total: safety obligations)
+func lemmaC12_rx1_closed_EU433(rep bool, dr, off int) {
+	b, _ := newEU433Band(rep)
+	r, err := b.GetRX1DataRateIndex(dr, off)
+	if err != nil {
+		return
+	}
+	d, err2 := b.GetDataRate(r)
+	verifAssert(err2 == nil, "rx1-defined")
+	verifAssert(err2 != nil || d.downlink, "rx1-downlink")
+	up, err3 := b.GetDataRate(dr)
+	verifAssert(err3 == nil && up.uplink, "rx1-uplink-dr")
+}
+
+// C12: over the region's positive offsets the RX1 data-rate never increases and moves down by at most one step
+func lemmaC12_rx1_monotone_EU433(rep bool, dr, off int) {
+	verifAssume(off >= 0 && off < 5)
+	b, _ := newEU433Band(rep)
+	r0, err0 := b.GetRX1DataRateIndex(dr, off)
+	r1, err1 := b.GetRX1DataRateIndex(dr, off+1)
+	if err0 != nil || err1 != nil {
+		return
+	}
+	verifAssert(r1 <= r0, "rx1-nonincreasing")
+	verifAssert(r1 >= r0-1, "rx1-one-step")
+}
+
+// C12: RX1 channel index and RX1 frequency denote the same existing downlink channel
+func lemmaC12_rx1_channel_EU433(rep bool, i int) {
+	b, _ := newEU433Band(rep)
+	up, err := b.GetUplinkChannel(i)
+	if err != nil {
+		return
+	}
+	j, err1 := b.GetRX1ChannelIndexForUplinkChannelIndex(i)
+	verifAssert(err1 == nil, "rx1-channel-ok")
+	down, err2 := b.GetDownlinkChannel(j)
+	verifAssert(err2 == nil, "rx1-channel-exists")
+	f, err3 := b.GetRX1FrequencyForUplinkFrequency(up.Frequency)
+	verifAssert(err3 == nil && err2 == nil && f == down.Frequency, "rx1-frequency-agrees")
+}
+
+// C13: channel data-rate ranges, the RX2 default and RX1 results are defined data-rates
+func lemmaC13_channel_drs_EU433(rep bool, i int) {
+	b, _ := newEU433Band(rep)
+	c, err := b.GetUplinkChannel(i)
+	if err != nil {
+		return
+	}
+	lo, e1 := b.GetDataRate(c.MinDR)
+	hi, e2 := b.GetDataRate(c.MaxDR)
+	verifAssert(e1 == nil && e2 == nil && lo.uplink && hi.uplink, "channel-dr-defined")
+	verifAssert(c.MinDR <= c.MaxDR, "channel-dr-ordered")
+	rx2, e3 := b.GetDataRate(b.GetDefaults().RX2DataRate)
+	verifAssert(e3 == nil && rx2.downlink, "rx2-dr-defined")
+}
+
+// C13: a defined data-rate looked up by its parameters (in a direction it supports) gives the same index;
+// distinct defined data-rates of one direction have distinct parameters (so the map iteration order is irrelevant)
+func lemmaC13_dr_index_EU433(rep bool, i, j int) {
+	b, _ := newEU433Band(rep)
+	d, err := b.GetDataRate(i)
+	if err != nil {
+		return
+	}
+	if d.uplink {
+		k, e := b.GetDataRateIndex(true, d)
+		verifAssert(e == nil && k == i, "dr-index-uplink")
+	}
+	if d.downlink {
+		k, e := b.GetDataRateIndex(false, d)
+		verifAssert(e == nil && k == i, "dr-index-downlink")
+	}
+	d2, err2 := b.GetDataRate(j)
+	if err2 != nil || i == j {
+		return
+	}
+	same := d.Modulation == d2.Modulation && d.Bandwidth == d2.Bandwidth && d.BitRate == d2.BitRate && d.SpreadFactor == d2.SpreadFactor && d.OccupiedChannelWidth == d2.OccupiedChannelWidth && d.CodingRate == d2.CodingRate
+	verifAssert(!(same && d.uplink && d2.uplink), "dr-unique-uplink")
+	verifAssert(!(same && d.downlink && d2.downlink), "dr-unique-downlink")
+}
+
+// C13: under the fallback ("latest") revision every defined data-rate has a maximum payload size (unknown
+// version / revision strings resolve to it), M = N + 8, N <= 242, and repeater sizes never exceed the others
+func lemmaC13_max_payload_EU433(rep bool, ver, rev string, i int) {
+	b, _ := newEU433Band(rep)
+	_, err := b.GetDataRate(i)
+	if err != nil {
+		return
+	}
+	p, e := b.GetMaxPayloadSizeForDataRateIndex("not-a-version", "not-a-revision", i)
+	verifAssert(e == nil, "latest-has-entry")
+	q, e2 := b.GetMaxPayloadSizeForDataRateIndex(ver, rev, i)
+	if e2 == nil {
+		verifAssert((q.M == q.N+8 && q.N <= 242) || (q.M == 0 && q.N == 0), "size-shape")
+	}
+	_ = p
+}
+
+// ---------------------------------------------------------------------------- CN779
+// C12: every accepted (uplink DR, RX1 offset) gives a data-rate that is defined for downlink;
+// negative / too large arguments give an error (the accessors are total: safety obligations)
+func lemmaC12_rx1_closed_CN779(rep bool, dr, off int) {
+	b, _ := newCN779Band(rep)
+	r, err := b.GetRX1DataRateIndex(dr, off)
+	if err != nil {
+		return
+	}
+	d, err2 := b.GetDataRate(r)
+	verifAssert(err2 == nil, "rx1-defined")
+	verifAssert(err2 != nil || d.downlink, "rx1-downlink")
+	up, err3 := b.GetDataRate(dr)
+	verifAssert(err3 == nil && up.uplink, "rx1-uplink-dr")
+}
+
+// C12: over the region's positive offsets the RX1 data-rate never increases and moves down by at most one step
+func lemmaC12_rx1_monotone_CN779(rep bool, dr, off int) {
+	verifAssume(off >= 0 && off < 5)
+	b, _ := newCN779Band(rep)
+	r0, err0 := b.GetRX1DataRateIndex(dr, off)
+	r1, err1 := b.GetRX1DataRateIndex(dr, off+1)
+	if err0 != nil || err1 != nil {
+		return
+	}
+	verifAssert(r1 <= r0, "rx1-nonincreasing")
+	verifAssert(r1 >= r0-1, "rx1-one-step")
+}
+
+// C12: RX1 channel index and RX1 frequency denote the same existing downlink channel
+func lemmaC12_rx1_channel_CN779(rep bool, i int) {
+	b, _ := newCN779Band(rep)
+	up, err := b.GetUplinkChannel(i)
+	if err != nil {
+		return
+	}
+	j, err1 := b.GetRX1ChannelIndexForUplinkChannelIndex(i)
+	verifAssert(err1 == nil, "rx1-channel-ok")
+	down, err2 := b.GetDownlinkChannel(j)
+	verifAssert(err2 == nil, "rx1-channel-exists")
+	f, err3 := b.GetRX1FrequencyForUplinkFrequency(up.Frequency)
+	verifAssert(err3 == nil && err2 == nil && f == down.Frequency, "rx1-frequency-agrees")
+}
+
+// C13: channel data-rate ranges, the RX2 default and RX1 results are defined data-rates
+func lemmaC13_channel_drs_CN779(rep bool, i int) {
+	b, _ := newCN779Band(rep)
+	c, err := b.GetUplinkChannel(i)
+	if err != nil {
+		return
+	}
+	lo, e1 := b.GetDataRate(c.MinDR)
+	hi, e2 := b.GetDataRate(c.MaxDR)
+	verifAssert(e1 == nil && e2 == nil && lo.uplink && hi.uplink, "channel-dr-defined")
+	verifAssert(c.MinDR <= c.MaxDR, "channel-dr-ordered")
+	rx2, e3 := b.GetDataRate(b.GetDefaults().RX2DataRate)
+	verifAssert(e3 == nil && rx2.downlink, "rx2-dr-defined")
+}
+
+// C13: a defined data-rate looked up by its parameters (in a direction it supports) gives the same index;
+// distinct defined data-rates of one direction have distinct parameters (so the map iteration order is irrelevant)
+func lemmaC13_dr_index_CN779(rep bool, i, j int) {
+	b, _ := newCN779Band(rep)
+	d, err := b.GetDataRate(i)
+	if err != nil {
+		return
+	}
+	if d.uplink {
+		k, e := b.GetDataRateIndex(true, d)
+		verifAssert(e == nil && k == i, "dr-index-uplink")
+	}
+	if d.downlink {
+		k, e := b.GetDataRateIndex(false, d)
+		verifAssert(e == nil && k == i, "dr-index-downlink")
+	}
+	d2, err2 := b.GetDataRate(j)
+	if err2 != nil || i == j {
+		return
+	}
+	same := d.Modulation == d2.Modulation && d.Bandwidth == d2.Bandwidth && d.BitRate == d2.BitRate && d.SpreadFactor == d2.SpreadFactor && d.OccupiedChannelWidth == d2.OccupiedChannelWidth && d.CodingRate == d2.CodingRate
+	verifAssert(!(same && d.uplink && d2.uplink), "dr-unique-uplink")
+	verifAssert(!(same && d.downlink && d2.downlink), "dr-unique-downlink")
+}
+
+// C13: under the fallback ("latest") revision every defined data-rate has a maximum payload size (unknown
+// version / revision strings resolve to it), M = N + 8, N <= 242, and repeater sizes never exceed the others
+func lemmaC13_max_payload_CN779(rep bool, ver, rev string, i int) {
+	b, _ := newCN779Band(rep)
+	_, err := b.GetDataRate(i)
+	if err != nil {
+		return
+	}
+	p, e := b.GetMaxPayloadSizeForDataRateIndex("not-a-version", "not-a-revision", i)
+	verifAssert(e == nil, "latest-has-entry")
+	q, e2 := b.GetMaxPayloadSizeForDataRateIndex(ver, rev, i)
+	if e2 == nil {
+		verifAssert((q.M == q.N+8 && q.N <= 242) || (q.M == 0 && q.N == 0), "size-shape")
+	}
+	_ = p
+}
+
+// ---------------------------------------------------------------------------- CN470
+// C12: every accepted (uplink DR, RX1 offset) gives a data-rate that is defined for downlink;
+// negative / too large arguments give an error (the accessors are total: safety obligations)
+func lemmaC12_rx1_closed_CN470(rep bool, dr, off int) {
+	b, _ := newCN470Band(rep)
+	r, err := b.GetRX1DataRateIndex(dr, off)
+	if err != nil {
+		return
+	}
+	d, err2 := b.GetDataRate(r)
+	verifAssert(err2 == nil, "rx1-defined")
+	verifAssert(err2 != nil || d.downlink, "rx1-downlink")
+	up, err3 := b.GetDataRate(dr)
+	verifAssert(err3 == nil && up.uplink, "rx1-uplink-dr")
+}
+
+// C12: over the region's positive offsets the RX1 data-rate never increases and moves down by at most one step
+func lemmaC12_rx1_monotone_CN470(rep bool, dr, off int) {
+	verifAssume(off >= 0 && off < 5)
+	b, _ := newCN470Band(rep)
+	r0, err0 := b.GetRX1DataRateIndex(dr, off)
+	r1, err1 := b.GetRX1DataRateIndex(dr, off+1)
+	if err0 != nil || err1 != nil {
+		return
+	}
+	verifAssert(r1 <= r0, "rx1-nonincreasing")
+	verifAssert(r1 >= r0-1, "rx1-one-step")
+}
+
+// C12: RX1 channel index and RX1 frequency denote the same existing downlink channel
+func lemmaC12_rx1_channel_CN470(rep bool, i int) {
+	b, _ := newCN470Band(rep)
+	up, err := b.GetUplinkChannel(i)
+	if err != nil {
+		return
+	}
+	j, err1 := b.GetRX1ChannelIndexForUplinkChannelIndex(i)
+	verifAssert(err1 == nil, "rx1-channel-ok")
+	down, err2 := b.GetDownlinkChannel(j)
+	verifAssert(err2 == nil, "rx1-channel-exists")
+	f, err3 := b.GetRX1FrequencyForUplinkFrequency(up.Frequency)
+	verifAssert(err3 == nil && err2 == nil && f == down.Frequency, "rx1-frequency-agrees")
+}
+
+// C13: channel data-rate ranges, the RX2 default and RX1 results are defined data-rates
+func lemmaC13_channel_drs_CN470(rep bool, i int) {
+	b, _ := newCN470Band(rep)
+	c, err := b.GetUplinkChannel(i)
+	if err != nil {
+		return
+	}
+	lo, e1 := b.GetDataRate(c.MinDR)
+	hi, e2 := b.GetDataRate(c.MaxDR)
+	verifAssert(e1 == nil && e2 == nil && lo.uplink && hi.uplink, "channel-dr-defined")
+	verifAssert(c.MinDR <= c.MaxDR, "channel-dr-ordered")
+	rx2, e3 := b.GetDataRate(b.GetDefaults().RX2DataRate)
+	verifAssert(e3 == nil && rx2.downlink, "rx2-dr-defined")
+}
+
+// C13: a defined data-rate looked up by its parameters (in a direction it supports) gives the same index;
+// distinct defined data-rates of one direction have distinct parameters (so the map iteration order is irrelevant)
+func lemmaC13_dr_index_CN470(rep bool, i, j int) {
+	b, _ := newCN470Band(rep)
+	d, err := b.GetDataRate(i)
+	if err != nil {
+		return
+	}
+	if d.uplink {
+		k, e := b.GetDataRateIndex(true, d)
+		verifAssert(e == nil && k == i, "dr-index-uplink")
+	}
+	if d.downlink {
+		k, e := b.GetDataRateIndex(false, d)
+		verifAssert(e == nil && k == i, "dr-index-downlink")
+	}
+	d2, err2 := b.GetDataRate(j)
+	if err2 != nil || i == j {
+		return
+	}
+	same := d.Modulation == d2.Modulation && d.Bandwidth == d2.Bandwidth && d.BitRate == d2.BitRate && d.SpreadFactor == d2.SpreadFactor && d.OccupiedChannelWidth == d2.OccupiedChannelWidth && d.CodingRate == d2.CodingRate
+	verifAssert(!(same && d.uplink && d2.uplink), "dr-unique-uplink")
+	verifAssert(!(same && d.downlink && d2.downlink), "dr-unique-downlink")
+}
+
+// C13: under the fallback ("latest") revision every defined data-rate has a maximum payload size (unknown
+// version / revision strings resolve to it), M = N + 8, N <= 242, and repeater sizes never exceed the others
+func lemmaC13_max_payload_CN470(rep bool, ver, rev string, i int) {
+	b, _ := newCN470Band(rep)
+	_, err := b.GetDataRate(i)
+	if err != nil {
+		return
+	}
+	p, e := b.GetMaxPayloadSizeForDataRateIndex("not-a-version", "not-a-revision", i)
+	verifAssert(e == nil, "latest-has-entry")
+	q, e2 := b.GetMaxPayloadSizeForDataRateIndex(ver, rev, i)
+	if e2 == nil {
+		verifAssert((q.M == q.N+8 && q.N <= 242) || (q.M == 0 && q.N == 0), "size-shape")
+	}
+	_ = p
+}
+
+// ---------------------------------------------------------------------------- IN865
+// C12: every accepted (uplink DR, RX1 offset) gives a data-rate that is defined for downlink;
+// negative / too large arguments give an error (the accessors are total: safety obligations)
+func lemmaC12_rx1_closed_IN865(rep bool, dr, off int) {
+	b, _ := newIN865Band(rep)
+	r, err := b.GetRX1DataRateIndex(dr, off)
+	if err != nil {
+		return
+	}
+	d, err2 := b.GetDataRate(r)
+	verifAssert(err2 == nil, "rx1-defined")
+	verifAssert(err2 != nil || d.downlink, "rx1-downlink")
+	up, err3 := b.GetDataRate(dr)
+	verifAssert(err3 == nil && up.uplink, "rx1-uplink-dr")
+}
+
+// C12: over the region's positive offsets the RX1 data-rate never increases and moves down by at most one step
+func lemmaC12_rx1_monotone_IN865(rep bool, dr, off int) {
+	verifAssume(off >= 0 && off < 5)
+	b, _ := newIN865Band(rep)
+	r0, err0 := b.GetRX1DataRateIndex(dr, off)
+	r1, err1 := b.GetRX1DataRateIndex(dr, off+1)
+	if err0 != nil || err1 != nil {
+		return
+	}
+	verifAssert(r1 <= r0, "rx1-nonincreasing")
+	verifAssert(r1 >= r0-1, "rx1-one-step")
+}
+
+// C12: RX1 channel index and RX1 frequency denote the same existing downlink channel
+func lemmaC12_rx1_channel_IN865(rep bool, i int) {
+	b, _ := newIN865Band(rep)
+	up, err := b.GetUplinkChannel(i)
+	if err != nil {
+		return
+	}
+	j, err1 := b.GetRX1ChannelIndexForUplinkChannelIndex(i)
+	verifAssert(err1 == nil, "rx1-channel-ok")
+	down, err2 := b.GetDownlinkChannel(j)
+	verifAssert(err2 == nil, "rx1-channel-exists")
+	f, err3 := b.GetRX1FrequencyForUplinkFrequency(up.Frequency)
+	verifAssert(err3 == nil && err2 == nil && f == down.Frequency, "rx1-frequency-agrees")
+}
+
+// C13: channel data-rate ranges, the RX2 default and RX1 results are defined data-rates
+func lemmaC13_channel_drs_IN865(rep bool, i int) {
+	b, _ := newIN865Band(rep)
+	c, err := b.GetUplinkChannel(i)
+	if err != nil {
+		return
+	}
+	lo, e1 := b.GetDataRate(c.MinDR)
+	hi, e2 := b.GetDataRate(c.MaxDR)
+	verifAssert(e1 == nil && e2 == nil && lo.uplink && hi.uplink, "channel-dr-defined")
+	verifAssert(c.MinDR <= c.MaxDR, "channel-dr-ordered")
+	rx2, e3 := b.GetDataRate(b.GetDefaults().RX2DataRate)
+	verifAssert(e3 == nil && rx2.downlink, "rx2-dr-defined")
+}
+
+// C13: a defined data-rate looked up by its parameters (in a direction it supports) gives the same index;
+// distinct defined data-rates of one direction have distinct parameters (so the map iteration order is irrelevant)
+func lemmaC13_dr_index_IN865(rep bool, i, j int) {
+	b, _ := newIN865Band(rep)
+	d, err := b.GetDataRate(i)
+	if err != nil {
+		return
+	}
+	if d.uplink {
+		k, e := b.GetDataRateIndex(true, d)
+		verifAssert(e == nil && k == i, "dr-index-uplink")
+	}
+	if d.downlink {
+		k, e := b.GetDataRateIndex(false, d)
+		verifAssert(e == nil && k == i, "dr-index-downlink")
+	}
+	d2, err2 := b.GetDataRate(j)
+	if err2 != nil || i == j {
+		return
+	}
+	same := d.Modulation == d2.Modulation && d.Bandwidth == d2.Bandwidth && d.BitRate == d2.BitRate && d.SpreadFactor == d2.SpreadFactor && d.OccupiedChannelWidth == d2.OccupiedChannelWidth && d.CodingRate == d2.CodingRate
+	verifAssert(!(same && d.uplink && d2.uplink), "dr-unique-uplink")
+	verifAssert(!(same && d.downlink && d2.downlink), "dr-unique-downlink")
+}
+
+// C13: under the fallback ("latest") revision every defined data-rate has a maximum payload size (unknown
+// version / revision strings resolve to it), M = N + 8, N <= 242, and repeater sizes never exceed the others
+func lemmaC13_max_payload_IN865(rep bool, ver, rev string, i int) {
+	b, _ := newIN865Band(rep)
+	_, err := b.GetDataRate(i)
+	if err != nil {
+		return
+	}
+	p, e := b.GetMaxPayloadSizeForDataRateIndex("not-a-version", "not-a-revision", i)
+	verifAssert(e == nil, "latest-has-entry")
+	q, e2 := b.GetMaxPayloadSizeForDataRateIndex(ver, rev, i)
+	if e2 == nil {
+		verifAssert((q.M == q.N+8 && q.N <= 242) || (q.M == 0 && q.N == 0), "size-shape")
+	}
+	_ = p
+}
+
+// ---------------------------------------------------------------------------- KR920
+// C12: every accepted (uplink DR, RX1 offset) gives a data-rate that is defined for downlink;
+// negative / too large arguments give an error (the accessors are total: safety obligations)
+func lemmaC12_rx1_closed_KR920(rep bool, dr, off int) {
+	b, _ := newKR920Band(rep)
+	r, err := b.GetRX1DataRateIndex(dr, off)
+	if err != nil {
+		return
+	}
+	d, err2 := b.GetDataRate(r)
+	verifAssert(err2 == nil, "rx1-defined")
+	verifAssert(err2 != nil || d.downlink, "rx1-downlink")
+	up, err3 := b.GetDataRate(dr)
+	verifAssert(err3 == nil && up.uplink, "rx1-uplink-dr")
+}
+
+// C12: over the region's positive offsets the RX1 data-rate never increases and moves down by at most one step
+func lemmaC12_rx1_monotone_KR920(rep bool, dr, off int) {
+	verifAssume(off >= 0 && off < 5)
+	b, _ := newKR920Band(rep)
+	r0, err0 := b.GetRX1DataRateIndex(dr, off)
+	r1, err1 := b.GetRX1DataRateIndex(dr, off+1)
+	if err0 != nil || err1 != nil {
+		return
+	}
+	verifAssert(r1 <= r0, "rx1-nonincreasing")
+	verifAssert(r1 >= r0-1, "rx1-one-step")
+}
+
+// C12: RX1 channel index and RX1 frequency denote the same existing downlink channel
+func lemmaC12_rx1_channel_KR920(rep bool, i int) {
+	b, _ := newKR920Band(rep)
+	up, err := b.GetUplinkChannel(i)
+	if err != nil {
+		return
+	}
+	j, err1 := b.GetRX1ChannelIndexForUplinkChannelIndex(i)
+	verifAssert(err1 == nil, "rx1-channel-ok")
+	down, err2 := b.GetDownlinkChannel(j)
+	verifAssert(err2 == nil, "rx1-channel-exists")
+	f, err3 := b.GetRX1FrequencyForUplinkFrequency(up.Frequency)
+	verifAssert(err3 == nil && err2 == nil && f == down.Frequency, "rx1-frequency-agrees")
+}
+
+// C13: channel data-rate ranges, the RX2 default and RX1 results are defined data-rates
+func lemmaC13_channel_drs_KR920(rep bool, i int) {
+	b, _ := newKR920Band(rep)
+	c, err := b.GetUplinkChannel(i)
+	if err != nil {
+		return
+	}
+	lo, e1 := b.GetDataRate(c.MinDR)
+	hi, e2 := b.GetDataRate(c.MaxDR)
+	verifAssert(e1 == nil && e2 == nil && lo.uplink && hi.uplink, "channel-dr-defined")
+	verifAssert(c.MinDR <= c.MaxDR, "channel-dr-ordered")
+	rx2, e3 := b.GetDataRate(b.GetDefaults().RX2DataRate)
+	verifAssert(e3 == nil && rx2.downlink, "rx2-dr-defined")
+}
+
+// C13: a defined data-rate looked up by its parameters (in a direction it supports) gives the same index;
+// distinct defined data-rates of one direction have distinct parameters (so the map iteration order is irrelevant)
+func lemmaC13_dr_index_KR920(rep bool, i, j int) {
+	b, _ := newKR920Band(rep)
+	d, err := b.GetDataRate(i)
+	if err != nil {
+		return
+	}
+	if d.uplink {
+		k, e := b.GetDataRateIndex(true, d)
+		verifAssert(e == nil && k == i, "dr-index-uplink")
+	}
+	if d.downlink {
+		k, e := b.GetDataRateIndex(false, d)
+		verifAssert(e == nil && k == i, "dr-index-downlink")
+	}
+	d2, err2 := b.GetDataRate(j)
+	if err2 != nil || i == j {
+		return
+	}
+	same := d.Modulation == d2.Modulation && d.Bandwidth == d2.Bandwidth && d.BitRate == d2.BitRate && d.SpreadFactor == d2.SpreadFactor && d.OccupiedChannelWidth == d2.OccupiedChannelWidth && d.CodingRate == d2.CodingRate
+	verifAssert(!(same && d.uplink && d2.uplink), "dr-unique-uplink")
+	verifAssert(!(same && d.downlink && d2.downlink), "dr-unique-downlink")
+}
+
+// C13: under the fallback ("latest") revision every defined data-rate has a maximum payload size (unknown
+// version / revision strings resolve to it), M = N + 8, N <= 242, and repeater sizes never exceed the others
+func lemmaC13_max_payload_KR920(rep bool, ver, rev string, i int) {
+	b, _ := newKR920Band(rep)
+	_, err := b.GetDataRate(i)
+	if err != nil {
+		return
+	}
+	p, e := b.GetMaxPayloadSizeForDataRateIndex("not-a-version", "not-a-revision", i)
+	verifAssert(e == nil, "latest-has-entry")
+	q, e2 := b.GetMaxPayloadSizeForDataRateIndex(ver, rev, i)
+	if e2 == nil {
+		verifAssert((q.M == q.N+8 && q.N <= 242) || (q.M == 0 && q.N == 0), "size-shape")
+	}
+	_ = p
+}
+
+// ---------------------------------------------------------------------------- RU864
+// C12: every accepted (uplink DR, RX1 offset) gives a data-rate that is defined for downlink;
+// negative / too large arguments give an error (the accessors are total: safety obligations)
+func lemmaC12_rx1_closed_RU864(rep bool, dr, off int) {
+	b, _ := newRU864Band(rep)
+	r, err := b.GetRX1DataRateIndex(dr, off)
+	if err != nil {
+		return
+	}
+	d, err2 := b.GetDataRate(r)
+	verifAssert(err2 == nil, "rx1-defined")
+	verifAssert(err2 != nil || d.downlink, "rx1-downlink")
+	up, err3 := b.GetDataRate(dr)
+	verifAssert(err3 == nil && up.uplink, "rx1-uplink-dr")
+}
+
+// C12: over the region's positive offsets the RX1 data-rate never increases and moves down by at most one step
+func lemmaC12_rx1_monotone_RU864(rep bool, dr, off int) {
+	verifAssume(off >= 0 && off < 5)
+	b, _ := newRU864Band(rep)
+	r0, err0 := b.GetRX1DataRateIndex(dr, off)
+	r1, err1 := b.GetRX1DataRateIndex(dr, off+1)
+	if err0 != nil || err1 != nil {
+		return
+	}
+	verifAssert(r1 <= r0, "rx1-nonincreasing")
+	verifAssert(r1 >= r0-1, "rx1-one-step")
+}
+
+// C12: RX1 channel index and RX1 frequency denote the same existing downlink channel
+func lemmaC12_rx1_channel_RU864(rep bool, i int) {
+	b, _ := newRU864Band(rep)
+	up, err := b.GetUplinkChannel(i)
+	if err != nil {
+		return
+	}
+	j, err1 := b.GetRX1ChannelIndexForUplinkChannelIndex(i)
+	verifAssert(err1 == nil, "rx1-channel-ok")
+	down, err2 := b.GetDownlinkChannel(j)
+	verifAssert(err2 == nil, "rx1-channel-exists")
+	f, err3 := b.GetRX1FrequencyForUplinkFrequency(up.Frequency)
+	verifAssert(err3 == nil && err2 == nil && f == down.Frequency, "rx1-frequency-agrees")
+}
+
+// C13: channel data-rate ranges, the RX2 default and RX1 results are defined data-rates
+func lemmaC13_channel_drs_RU864(rep bool, i int) {
+	b, _ := newRU864Band(rep)
+	c, err := b.GetUplinkChannel(i)
+	if err != nil {
+		return
+	}
+	lo, e1 := b.GetDataRate(c.MinDR)
+	hi, e2 := b.GetDataRate(c.MaxDR)
+	verifAssert(e1 == nil && e2 == nil && lo.uplink && hi.uplink, "channel-dr-defined")
+	verifAssert(c.MinDR <= c.MaxDR, "channel-dr-ordered")
+	rx2, e3 := b.GetDataRate(b.GetDefaults().RX2DataRate)
+	verifAssert(e3 == nil && rx2.downlink, "rx2-dr-defined")
+}
+
+// C13: a defined data-rate looked up by its parameters (in a direction it supports) gives the same index;
+// distinct defined data-rates of one direction have distinct parameters (so the map iteration order is irrelevant)
+func lemmaC13_dr_index_RU864(rep bool, i, j int) {
+	b, _ := newRU864Band(rep)
+	d, err := b.GetDataRate(i)
+	if err != nil {
+		return
+	}
+	if d.uplink {
+		k, e := b.GetDataRateIndex(true, d)
+		verifAssert(e == nil && k == i, "dr-index-uplink")
+	}
+	if d.downlink {
+		k, e := b.GetDataRateIndex(false, d)
+		verifAssert(e == nil && k == i, "dr-index-downlink")
+	}
+	d2, err2 := b.GetDataRate(j)
+	if err2 != nil || i == j {
+		return
+	}
+	same := d.Modulation == d2.Modulation && d.Bandwidth == d2.Bandwidth && d.BitRate == d2.BitRate && d.SpreadFactor == d2.SpreadFactor && d.OccupiedChannelWidth == d2.OccupiedChannelWidth && d.CodingRate == d2.CodingRate
+	verifAssert(!(same && d.uplink && d2.uplink), "dr-unique-uplink")
+	verifAssert(!(same && d.downlink && d2.downlink), "dr-unique-downlink")
+}
+
+// C13: under the fallback ("latest") revision every defined data-rate has a maximum payload size (unknown
+// version / revision strings resolve to it), M = N + 8, N <= 242, and repeater sizes never exceed the others
+func lemmaC13_max_payload_RU864(rep bool, ver, rev string, i int) {
+	b, _ := newRU864Band(rep)
+	_, err := b.GetDataRate(i)
+	if err != nil {
+		return
+	}
+	p, e := b.GetMaxPayloadSizeForDataRateIndex("not-a-version", "not-a-revision", i)
+	verifAssert(e == nil, "latest-has-entry")
+	q, e2 := b.GetMaxPayloadSizeForDataRateIndex(ver, rev, i)
+	if e2 == nil {
+		verifAssert((q.M == q.N+8 && q.N <= 242) || (q.M == 0 && q.N == 0), "size-shape")
+	}
+	_ = p
+}
+
+// ---------------------------------------------------------------------------- ISM2400
+// C12: every accepted (uplink DR, RX1 offset) gives a data-rate that is defined for downlink;
+// negative / too large arguments give an error (the accessors are total: safety obligations)
+func lemmaC12_rx1_closed_ISM2400(rep bool, dr, off int) {
+	b, _ := newISM2400Band(rep)
+	r, err := b.GetRX1DataRateIndex(dr, off)
+	if err != nil {
+		return
+	}
+	d, err2 := b.GetDataRate(r)
+	verifAssert(err2 == nil, "rx1-defined")
+	verifAssert(err2 != nil || d.downlink, "rx1-downlink")
+	up, err3 := b.GetDataRate(dr)
+	verifAssert(err3 == nil && up.uplink, "rx1-uplink-dr")
+}
+
+// C12: over the region's positive offsets the RX1 data-rate never increases and moves down by at most one step
+func lemmaC12_rx1_monotone_ISM2400(rep bool, dr, off int) {
+	verifAssume(off >= 0 && off < 5)
+	b, _ := newISM2400Band(rep)
+	r0, err0 := b.GetRX1DataRateIndex(dr, off)
+	r1, err1 := b.GetRX1DataRateIndex(dr, off+1)
+	if err0 != nil || err1 != nil {
+		return
+	}
+	verifAssert(r1 <= r0, "rx1-nonincreasing")
+	verifAssert(r1 >= r0-1, "rx1-one-step")
+}
+
+// C12: RX1 channel index and RX1 frequency denote the same existing downlink channel
+func lemmaC12_rx1_channel_ISM2400(rep bool, i int) {
+	b, _ := newISM2400Band(rep)
+	up, err := b.GetUplinkChannel(i)
+	if err != nil {
+		return
+	}
+	j, err1 := b.GetRX1ChannelIndexForUplinkChannelIndex(i)
+	verifAssert(err1 == nil, "rx1-channel-ok")
+	down, err2 := b.GetDownlinkChannel(j)
+	verifAssert(err2 == nil, "rx1-channel-exists")
+	f, err3 := b.GetRX1FrequencyForUplinkFrequency(up.Frequency)
+	verifAssert(err3 == nil && err2 == nil && f == down.Frequency, "rx1-frequency-agrees")
+}
+
+// C13: channel data-rate ranges, the RX2 default and RX1 results are defined data-rates
+func lemmaC13_channel_drs_ISM2400(rep bool, i int) {
+	b, _ := newISM2400Band(rep)
+	c, err := b.GetUplinkChannel(i)
+	if err != nil {
+		return
+	}
+	lo, e1 := b.GetDataRate(c.MinDR)
+	hi, e2 := b.GetDataRate(c.MaxDR)
+	verifAssert(e1 == nil && e2 == nil && lo.uplink && hi.uplink, "channel-dr-defined")
+	verifAssert(c.MinDR <= c.MaxDR, "channel-dr-ordered")
+	rx2, e3 := b.GetDataRate(b.GetDefaults().RX2DataRate)
+	verifAssert(e3 == nil && rx2.downlink, "rx2-dr-defined")
+}
+
+// C13: a defined data-rate looked up by its parameters (in a direction it supports) gives the same index;
+// distinct defined data-rates of one direction have distinct parameters (so the map iteration order is irrelevant)
+func lemmaC13_dr_index_ISM2400(rep bool, i, j int) {
+	b, _ := newISM2400Band(rep)
+	d, err := b.GetDataRate(i)
+	if err != nil {
+		return
+	}
+	if d.uplink {
+		k, e := b.GetDataRateIndex(true, d)
+		verifAssert(e == nil && k == i, "dr-index-uplink")
+	}
+	if d.downlink {
+		k, e := b.GetDataRateIndex(false, d)
+		verifAssert(e == nil && k == i, "dr-index-downlink")
+	}
+	d2, err2 := b.GetDataRate(j)
+	if err2 != nil || i == j {
+		return
+	}
+	same := d.Modulation == d2.Modulation && d.Bandwidth == d2.Bandwidth && d.BitRate == d2.BitRate && d.SpreadFactor == d2.SpreadFactor && d.OccupiedChannelWidth == d2.OccupiedChannelWidth && d.CodingRate == d2.CodingRate
+	verifAssert(!(same && d.uplink && d2.uplink), "dr-unique-uplink")
+	verifAssert(!(same && d.downlink && d2.downlink), "dr-unique-downlink")
+}
+
+// C13: under the fallback ("latest") revision every defined data-rate has a maximum payload size (unknown
+// version / revision strings resolve to it), M = N + 8, N <= 242, and repeater sizes never exceed the others
+func lemmaC13_max_payload_ISM2400(rep bool, ver, rev string, i int) {
+	b, _ := newISM2400Band(rep)
+	_, err := b.GetDataRate(i)
+	if err != nil {
+		return
+	}
+	p, e := b.GetMaxPayloadSizeForDataRateIndex("not-a-version", "not-a-revision", i)
+	verifAssert(e == nil, "latest-has-entry")
+	q, e2 := b.GetMaxPayloadSizeForDataRateIndex(ver, rev, i)
+	if e2 == nil {
+		verifAssert((q.M == q.N+8 && q.N <= 242) || (q.M == 0 && q.N == 0), "size-shape")
+	}
+	_ = p
+}
+
+// ---------------------------------------------------------------------------- US915
+// C12: every accepted (uplink DR, RX1 offset) gives a data-rate that is defined for downlink;
+// negative / too large arguments give an error (the accessors are total: safety obligations)
+func lemmaC12_rx1_closed_US915(rep bool, dr, off int) {
+	b, _ := newUS902Band(rep)
+	r, err := b.GetRX1DataRateIndex(dr, off)
+	if err != nil {
+		return
+	}
+	d, err2 := b.GetDataRate(r)
+	verifAssert(err2 == nil, "rx1-defined")
+	verifAssert(err2 != nil || d.downlink, "rx1-downlink")
+	up, err3 := b.GetDataRate(dr)
+	verifAssert(err3 == nil && up.uplink, "rx1-uplink-dr")
+}
+
+// C12: over the region's positive offsets the RX1 data-rate never increases and moves down by at most one step
+func lemmaC12_rx1_monotone_US915(rep bool, dr, off int) {
+	verifAssume(off >= 0 && off < 5)
+	b, _ := newUS902Band(rep)
+	r0, err0 := b.GetRX1DataRateIndex(dr, off)
+	r1, err1 := b.GetRX1DataRateIndex(dr, off+1)
+	if err0 != nil || err1 != nil {
+		return
+	}
+	verifAssert(r1 <= r0, "rx1-nonincreasing")
+	verifAssert(r1 >= r0-1, "rx1-one-step")
+}
+
+// C12: RX1 channel index and RX1 frequency denote the same existing downlink channel
+func lemmaC12_rx1_channel_US915(rep bool, i int) {
+	b, _ := newUS902Band(rep)
+	up, err := b.GetUplinkChannel(i)
+	if err != nil {
+		return
+	}
+	j, err1 := b.GetRX1ChannelIndexForUplinkChannelIndex(i)
+	verifAssert(err1 == nil, "rx1-channel-ok")
+	down, err2 := b.GetDownlinkChannel(j)
+	verifAssert(err2 == nil, "rx1-channel-exists")
+	f, err3 := b.GetRX1FrequencyForUplinkFrequency(up.Frequency)
+	verifAssert(err3 == nil && err2 == nil && f == down.Frequency, "rx1-frequency-agrees")
+}
+
+// C13: channel data-rate ranges, the RX2 default and RX1 results are defined data-rates
+func lemmaC13_channel_drs_US915(rep bool, i int) {
+	b, _ := newUS902Band(rep)
+	c, err := b.GetUplinkChannel(i)
+	if err != nil {
+		return
+	}
+	lo, e1 := b.GetDataRate(c.MinDR)
+	hi, e2 := b.GetDataRate(c.MaxDR)
+	verifAssert(e1 == nil && e2 == nil && lo.uplink && hi.uplink, "channel-dr-defined")
+	verifAssert(c.MinDR <= c.MaxDR, "channel-dr-ordered")
+	rx2, e3 := b.GetDataRate(b.GetDefaults().RX2DataRate)
+	verifAssert(e3 == nil && rx2.downlink, "rx2-dr-defined")
+}
+
+// C13: a defined data-rate looked up by its parameters (in a direction it supports) gives the same index;
+// distinct defined data-rates of one direction have distinct parameters (so the map iteration order is irrelevant)
+func lemmaC13_dr_index_US915(rep bool, i, j int) {
+	b, _ := newUS902Band(rep)
+	d, err := b.GetDataRate(i)
+	if err != nil {
+		return
+	}
+	if d.uplink {
+		k, e := b.GetDataRateIndex(true, d)
+		verifAssert(e == nil && k == i, "dr-index-uplink")
+	}
+	if d.downlink {
+		k, e := b.GetDataRateIndex(false, d)
+		verifAssert(e == nil && k == i, "dr-index-downlink")
+	}
+	d2, err2 := b.GetDataRate(j)
+	if err2 != nil || i == j {
+		return
+	}
+	same := d.Modulation == d2.Modulation && d.Bandwidth == d2.Bandwidth && d.BitRate == d2.BitRate && d.SpreadFactor == d2.SpreadFactor && d.OccupiedChannelWidth == d2.OccupiedChannelWidth && d.CodingRate == d2.CodingRate
+	verifAssert(!(same && d.uplink && d2.uplink), "dr-unique-uplink")
+	verifAssert(!(same && d.downlink && d2.downlink), "dr-unique-downlink")
+}
+
+// C13: under the fallback ("latest") revision every defined data-rate has a maximum payload size (unknown
+// version / revision strings resolve to it), M = N + 8, N <= 242, and repeater sizes never exceed the others
+func lemmaC13_max_payload_US915(rep bool, ver, rev string, i int) {
+	b, _ := newUS902Band(rep)
+	_, err := b.GetDataRate(i)
+	if err != nil {
+		return
+	}
+	p, e := b.GetMaxPayloadSizeForDataRateIndex("not-a-version", "not-a-revision", i)
+	verifAssert(e == nil, "latest-has-entry")
+	q, e2 := b.GetMaxPayloadSizeForDataRateIndex(ver, rev, i)
+	if e2 == nil {
+		verifAssert((q.M == q.N+8 && q.N <= 242) || (q.M == 0 && q.N == 0), "size-shape")
+	}
+	_ = p
+}
+
+// ---------------------------------------------------------------------------- AU915
+// C12: every accepted (uplink DR, RX1 offset) gives a data-rate that is defined for downlink;
+// negative / too large arguments give an error (the accessors are total: safety obligations)
+func lemmaC12_rx1_closed_AU915(rep bool, dt lorawan.DwellTime, dr, off int) {
+	verifAssume(dt == lorawan.DwellTimeNoLimit || dt == lorawan.DwellTime400ms)
+	b, _ := newAU915Band(rep, dt)
+	r, err := b.GetRX1DataRateIndex(dr, off)
+	if err != nil {
+		return
+	}
+	d, err2 := b.GetDataRate(r)
+	verifAssert(err2 == nil, "rx1-defined")
+	verifAssert(err2 != nil || d.downlink, "rx1-downlink")
+	up, err3 := b.GetDataRate(dr)
+	verifAssert(err3 == nil && up.uplink, "rx1-uplink-dr")
+}
+
+// C12: over the region's positive offsets the RX1 data-rate never increases and moves down by at most one step
+func lemmaC12_rx1_monotone_AU915(rep bool, dt lorawan.DwellTime, dr, off int) {
+	verifAssume(dt == lorawan.DwellTimeNoLimit || dt == lorawan.DwellTime400ms)
+	verifAssume(off >= 0 && off < 5)
+	b, _ := newAU915Band(rep, dt)
+	r0, err0 := b.GetRX1DataRateIndex(dr, off)
+	r1, err1 := b.GetRX1DataRateIndex(dr, off+1)
+	if err0 != nil || err1 != nil {
+		return
+	}
+	verifAssert(r1 <= r0, "rx1-nonincreasing")
+	verifAssert(r1 >= r0-1, "rx1-one-step")
+}
+
+// C12: RX1 channel index and RX1 frequency denote the same existing downlink channel
+func lemmaC12_rx1_channel_AU915(rep bool, dt lorawan.DwellTime, i int) {
+	verifAssume(dt == lorawan.DwellTimeNoLimit || dt == lorawan.DwellTime400ms)
+	b, _ := newAU915Band(rep, dt)
+	up, err := b.GetUplinkChannel(i)
+	if err != nil {
+		return
+	}
+	j, err1 := b.GetRX1ChannelIndexForUplinkChannelIndex(i)
+	verifAssert(err1 == nil, "rx1-channel-ok")
+	down, err2 := b.GetDownlinkChannel(j)
+	verifAssert(err2 == nil, "rx1-channel-exists")
+	f, err3 := b.GetRX1FrequencyForUplinkFrequency(up.Frequency)
+	verifAssert(err3 == nil && err2 == nil && f == down.Frequency, "rx1-frequency-agrees")
+}
+
+// C13: channel data-rate ranges, the RX2 default and RX1 results are defined data-rates
+func lemmaC13_channel_drs_AU915(rep bool, dt lorawan.DwellTime, i int) {
+	verifAssume(dt == lorawan.DwellTimeNoLimit || dt == lorawan.DwellTime400ms)
+	b, _ := newAU915Band(rep, dt)
+	c, err := b.GetUplinkChannel(i)
+	if err != nil {
+		return
+	}
+	lo, e1 := b.GetDataRate(c.MinDR)
+	hi, e2 := b.GetDataRate(c.MaxDR)
+	verifAssert(e1 == nil && e2 == nil && lo.uplink && hi.uplink, "channel-dr-defined")
+	verifAssert(c.MinDR <= c.MaxDR, "channel-dr-ordered")
+	rx2, e3 := b.GetDataRate(b.GetDefaults().RX2DataRate)
+	verifAssert(e3 == nil && rx2.downlink, "rx2-dr-defined")
+}
+
+// C13: a defined data-rate looked up by its parameters (in a direction it supports) gives the same index;
+// distinct defined data-rates of one direction have distinct parameters (so the map iteration order is irrelevant)
+func lemmaC13_dr_index_AU915(rep bool, dt lorawan.DwellTime, i, j int) {
+	verifAssume(dt == lorawan.DwellTimeNoLimit || dt == lorawan.DwellTime400ms)
+	b, _ := newAU915Band(rep, dt)
+	d, err := b.GetDataRate(i)
+	if err != nil {
+		return
+	}
+	if d.uplink {
+		k, e := b.GetDataRateIndex(true, d)
+		verifAssert(e == nil && k == i, "dr-index-uplink")
+	}
+	if d.downlink {
+		k, e := b.GetDataRateIndex(false, d)
+		verifAssert(e == nil && k == i, "dr-index-downlink")
+	}
+	d2, err2 := b.GetDataRate(j)
+	if err2 != nil || i == j {
+		return
+	}
+	same := d.Modulation == d2.Modulation && d.Bandwidth == d2.Bandwidth && d.BitRate == d2.BitRate && d.SpreadFactor == d2.SpreadFactor && d.OccupiedChannelWidth == d2.OccupiedChannelWidth && d.CodingRate == d2.CodingRate
+	verifAssert(!(same && d.uplink && d2.uplink), "dr-unique-uplink")
+	verifAssert(!(same && d.downlink && d2.downlink), "dr-unique-downlink")
+}
+
+// C13: under the fallback ("latest") revision every defined data-rate has a maximum payload size (unknown
+// version / revision strings resolve to it), M = N + 8, N <= 242, and repeater sizes never exceed the others
+func lemmaC13_max_payload_AU915(rep bool, dt lorawan.DwellTime, ver, rev string, i int) {
+	verifAssume(dt == lorawan.DwellTimeNoLimit || dt == lorawan.DwellTime400ms)
+	b, _ := newAU915Band(rep, dt)
+	_, err := b.GetDataRate(i)
+	if err != nil {
+		return
+	}
+	p, e := b.GetMaxPayloadSizeForDataRateIndex("not-a-version", "not-a-revision", i)
+	verifAssert(e == nil, "latest-has-entry")
+	q, e2 := b.GetMaxPayloadSizeForDataRateIndex(ver, rev, i)
+	if e2 == nil {
+		verifAssert((q.M == q.N+8 && q.N <= 242) || (q.M == 0 && q.N == 0), "size-shape")
+	}
+	_ = p
+}
+
+// ---------------------------------------------------------------------------- AS923
+// C12: every accepted (uplink DR, RX1 offset) gives a data-rate that is defined for downlink;
+// negative / too large arguments give an error (the accessors are total: safety obligations)
+func lemmaC12_rx1_closed_AS923(rep bool, dt lorawan.DwellTime, dr, off int) {
+	verifAssume(dt == lorawan.DwellTimeNoLimit || dt == lorawan.DwellTime400ms)
+	b, _ := newAS923Band(rep, dt, 0, "")
+	r, err := b.GetRX1DataRateIndex(dr, off)
+	if err != nil {
+		return
+	}
+	d, err2 := b.GetDataRate(r)
+	verifAssert(err2 == nil, "rx1-defined")
+	verifAssert(err2 != nil || d.downlink, "rx1-downlink")
+	up, err3 := b.GetDataRate(dr)
+	verifAssert(err3 == nil && up.uplink, "rx1-uplink-dr")
+}
+
+// C12: over the region's positive offsets the RX1 data-rate never increases and moves down by at most one step
+func lemmaC12_rx1_monotone_AS923(rep bool, dt lorawan.DwellTime, dr, off int) {
+	verifAssume(dt == lorawan.DwellTimeNoLimit || dt == lorawan.DwellTime400ms)
+	verifAssume(off >= 0 && off < 5)
+	b, _ := newAS923Band(rep, dt, 0, "")
+	r0, err0 := b.GetRX1DataRateIndex(dr, off)
+	r1, err1 := b.GetRX1DataRateIndex(dr, off+1)
+	if err0 != nil || err1 != nil {
+		return
+	}
+	verifAssert(r1 <= r0, "rx1-nonincreasing")
+	verifAssert(r1 >= r0-1, "rx1-one-step")
+}
+
+// C12: RX1 channel index and RX1 frequency denote the same existing downlink channel
+func lemmaC12_rx1_channel_AS923(rep bool, dt lorawan.DwellTime, i int) {
+	verifAssume(dt == lorawan.DwellTimeNoLimit || dt == lorawan.DwellTime400ms)
+	b, _ := newAS923Band(rep, dt, 0, "")
+	up, err := b.GetUplinkChannel(i)
+	if err != nil {
+		return
+	}
+	j, err1 := b.GetRX1ChannelIndexForUplinkChannelIndex(i)
+	verifAssert(err1 == nil, "rx1-channel-ok")
+	down, err2 := b.GetDownlinkChannel(j)
+	verifAssert(err2 == nil, "rx1-channel-exists")
+	f, err3 := b.GetRX1FrequencyForUplinkFrequency(up.Frequency)
+	verifAssert(err3 == nil && err2 == nil && f == down.Frequency, "rx1-frequency-agrees")
+}
+
+// C13: channel data-rate ranges, the RX2 default and RX1 results are defined data-rates
+func lemmaC13_channel_drs_AS923(rep bool, dt lorawan.DwellTime, i int) {
+	verifAssume(dt == lorawan.DwellTimeNoLimit || dt == lorawan.DwellTime400ms)
+	b, _ := newAS923Band(rep, dt, 0, "")
+	c, err := b.GetUplinkChannel(i)
+	if err != nil {
+		return
+	}
+	lo, e1 := b.GetDataRate(c.MinDR)
+	hi, e2 := b.GetDataRate(c.MaxDR)
+	verifAssert(e1 == nil && e2 == nil && lo.uplink && hi.uplink, "channel-dr-defined")
+	verifAssert(c.MinDR <= c.MaxDR, "channel-dr-ordered")
+	rx2, e3 := b.GetDataRate(b.GetDefaults().RX2DataRate)
+	verifAssert(e3 == nil && rx2.downlink, "rx2-dr-defined")
+}
+
+// C13: a defined data-rate looked up by its parameters (in a direction it supports) gives the same index;
+// distinct defined data-rates of one direction have distinct parameters (so the map iteration order is irrelevant)
+func lemmaC13_dr_index_AS923(rep bool, dt lorawan.DwellTime, i, j int) {
+	verifAssume(dt == lorawan.DwellTimeNoLimit || dt == lorawan.DwellTime400ms)
+	b, _ := newAS923Band(rep, dt, 0, "")
+	d, err := b.GetDataRate(i)
+	if err != nil {
+		return
+	}
+	if d.uplink {
+		k, e := b.GetDataRateIndex(true, d)
+		verifAssert(e == nil && k == i, "dr-index-uplink")
+	}
+	if d.downlink {
+		k, e := b.GetDataRateIndex(false, d)
+		verifAssert(e == nil && k == i, "dr-index-downlink")
+	}
+	d2, err2 := b.GetDataRate(j)
+	if err2 != nil || i == j {
+		return
+	}
+	same := d.Modulation == d2.Modulation && d.Bandwidth == d2.Bandwidth && d.BitRate == d2.BitRate && d.SpreadFactor == d2.SpreadFactor && d.OccupiedChannelWidth == d2.OccupiedChannelWidth && d.CodingRate == d2.CodingRate
+	verifAssert(!(same && d.uplink && d2.uplink), "dr-unique-uplink")
+	verifAssert(!(same && d.downlink && d2.downlink), "dr-unique-downlink")
+}
+
+// C13: under the fallback ("latest") revision every defined data-rate has a maximum payload size (unknown
+// version / revision strings resolve to it), M = N + 8, N <= 242, and repeater sizes never exceed the others
+func lemmaC13_max_payload_AS923(rep bool, dt lorawan.DwellTime, ver, rev string, i int) {
+	verifAssume(dt == lorawan.DwellTimeNoLimit || dt == lorawan.DwellTime400ms)
+	b, _ := newAS923Band(rep, dt, 0, "")
+	_, err := b.GetDataRate(i)
+	if err != nil {
+		return
+	}
+	p, e := b.GetMaxPayloadSizeForDataRateIndex("not-a-version", "not-a-revision", i)
+	verifAssert(e == nil, "latest-has-entry")
+	q, e2 := b.GetMaxPayloadSizeForDataRateIndex(ver, rev, i)
+	if e2 == nil {
+		verifAssert((q.M == q.N+8 && q.N <= 242) || (q.M == 0 && q.N == 0), "size-shape")
+	}
+	_ = p
+}
+
+// ---------------------------------------------------------------------------- AS923_2
+// C12: every accepted (uplink DR, RX1 offset) gives a data-rate that is defined for downlink;
+// negative / too large arguments give an error (the accessors are total: safety obligations)
+func lemmaC12_rx1_closed_AS923_2(rep bool, dt lorawan.DwellTime, dr, off int) {
+	verifAssume(dt == lorawan.DwellTimeNoLimit || dt == lorawan.DwellTime400ms)
+	b, _ := newAS923Band(rep, dt, -1800000, "-2")
+	r, err := b.GetRX1DataRateIndex(dr, off)
+	if err != nil {
+		return
+	}
+	d, err2 := b.GetDataRate(r)
+	verifAssert(err2 == nil, "rx1-defined")
+	verifAssert(err2 != nil || d.downlink, "rx1-downlink")
+	up, err3 := b.GetDataRate(dr)
+	verifAssert(err3 == nil && up.uplink, "rx1-uplink-dr")
+}
+
+// C12: over the region's positive offsets the RX1 data-rate never increases and moves down by at most one step
+func lemmaC12_rx1_monotone_AS923_2(rep bool, dt lorawan.DwellTime, dr, off int) {
+	verifAssume(dt == lorawan.DwellTimeNoLimit || dt == lorawan.DwellTime400ms)
+	verifAssume(off >= 0 && off < 5)
+	b, _ := newAS923Band(rep, dt, -1800000, "-2")
+	r0, err0 := b.GetRX1DataRateIndex(dr, off)
+	r1, err1 := b.GetRX1DataRateIndex(dr, off+1)
+	if err0 != nil || err1 != nil {
+		return
+	}
+	verifAssert(r1 <= r0, "rx1-nonincreasing")
+	verifAssert(r1 >= r0-1, "rx1-one-step")
+}
+
+// C12: RX1 channel index and RX1 frequency denote the same existing downlink channel
+func lemmaC12_rx1_channel_AS923_2(rep bool, dt lorawan.DwellTime, i int) {
+	verifAssume(dt == lorawan.DwellTimeNoLimit || dt == lorawan.DwellTime400ms)
+	b, _ := newAS923Band(rep, dt, -1800000, "-2")
+	up, err := b.GetUplinkChannel(i)
+	if err != nil {
+		return
+	}
+	j, err1 := b.GetRX1ChannelIndexForUplinkChannelIndex(i)
+	verifAssert(err1 == nil, "rx1-channel-ok")
+	down, err2 := b.GetDownlinkChannel(j)
+	verifAssert(err2 == nil, "rx1-channel-exists")
+	f, err3 := b.GetRX1FrequencyForUplinkFrequency(up.Frequency)
+	verifAssert(err3 == nil && err2 == nil && f == down.Frequency, "rx1-frequency-agrees")
+}
+
+// C13: channel data-rate ranges, the RX2 default and RX1 results are defined data-rates
+func lemmaC13_channel_drs_AS923_2(rep bool, dt lorawan.DwellTime, i int) {
+	verifAssume(dt == lorawan.DwellTimeNoLimit || dt == lorawan.DwellTime400ms)
+	b, _ := newAS923Band(rep, dt, -1800000, "-2")
+	c, err := b.GetUplinkChannel(i)
+	if err != nil {
+		return
+	}
+	lo, e1 := b.GetDataRate(c.MinDR)
+	hi, e2 := b.GetDataRate(c.MaxDR)
+	verifAssert(e1 == nil && e2 == nil && lo.uplink && hi.uplink, "channel-dr-defined")
+	verifAssert(c.MinDR <= c.MaxDR, "channel-dr-ordered")
+	rx2, e3 := b.GetDataRate(b.GetDefaults().RX2DataRate)
+	verifAssert(e3 == nil && rx2.downlink, "rx2-dr-defined")
+}
+
+// C13: a defined data-rate looked up by its parameters (in a direction it supports) gives the same index;
+// distinct defined data-rates of one direction have distinct parameters (so the map iteration order is irrelevant)
+func lemmaC13_dr_index_AS923_2(rep bool, dt lorawan.DwellTime, i, j int) {
+	verifAssume(dt == lorawan.DwellTimeNoLimit || dt == lorawan.DwellTime400ms)
+	b, _ := newAS923Band(rep, dt, -1800000, "-2")
+	d, err := b.GetDataRate(i)
+	if err != nil {
+		return
+	}
+	if d.uplink {
+		k, e := b.GetDataRateIndex(true, d)
+		verifAssert(e == nil && k == i, "dr-index-uplink")
+	}
+	if d.downlink {
+		k, e := b.GetDataRateIndex(false, d)
+		verifAssert(e == nil && k == i, "dr-index-downlink")
+	}
+	d2, err2 := b.GetDataRate(j)
+	if err2 != nil || i == j {
+		return
+	}
+	same := d.Modulation == d2.Modulation && d.Bandwidth == d2.Bandwidth && d.BitRate == d2.BitRate && d.SpreadFactor == d2.SpreadFactor && d.OccupiedChannelWidth == d2.OccupiedChannelWidth && d.CodingRate == d2.CodingRate
+	verifAssert(!(same && d.uplink && d2.uplink), "dr-unique-uplink")
+	verifAssert(!(same && d.downlink && d2.downlink), "dr-unique-downlink")
+}
+
+// C13: under the fallback ("latest") revision every defined data-rate has a maximum payload size (unknown
+// version / revision strings resolve to it), M = N + 8, N <= 242, and repeater sizes never exceed the others
+func lemmaC13_max_payload_AS923_2(rep bool, dt lorawan.DwellTime, ver, rev string, i int) {
+	verifAssume(dt == lorawan.DwellTimeNoLimit || dt == lorawan.DwellTime400ms)
+	b, _ := newAS923Band(rep, dt, -1800000, "-2")
+	_, err := b.GetDataRate(i)
+	if err != nil {
+		return
+	}
+	p, e := b.GetMaxPayloadSizeForDataRateIndex("not-a-version", "not-a-revision", i)
+	verifAssert(e == nil, "latest-has-entry")
+	q, e2 := b.GetMaxPayloadSizeForDataRateIndex(ver, rev, i)
+	if e2 == nil {
+		verifAssert((q.M == q.N+8 && q.N <= 242) || (q.M == 0 && q.N == 0), "size-shape")
+	}
+	_ = p
+}
+
+// ---------------------------------------------------------------------------- AS923_3
+// C12: every accepted (uplink DR, RX1 offset) gives a data-rate that is defined for downlink;
+// negative / too large arguments give an error (the accessors are total: safety obligations)
+func lemmaC12_rx1_closed_AS923_3(rep bool, dt lorawan.DwellTime, dr, off int) {
+	verifAssume(dt == lorawan.DwellTimeNoLimit || dt == lorawan.DwellTime400ms)
+	b, _ := newAS923Band(rep, dt, -6600000, "-3")
+	r, err := b.GetRX1DataRateIndex(dr, off)
+	if err != nil {
+		return
+	}
+	d, err2 := b.GetDataRate(r)
+	verifAssert(err2 == nil, "rx1-defined")
+	verifAssert(err2 != nil || d.downlink, "rx1-downlink")
+	up, err3 := b.GetDataRate(dr)
+	verifAssert(err3 == nil && up.uplink, "rx1-uplink-dr")
+}
+
+// C12: over the region's positive offsets the RX1 data-rate never increases and moves down by at most one step
+func lemmaC12_rx1_monotone_AS923_3(rep bool, dt lorawan.DwellTime, dr, off int) {
+	verifAssume(dt == lorawan.DwellTimeNoLimit || dt == lorawan.DwellTime400ms)
+	verifAssume(off >= 0 && off < 5)
+	b, _ := newAS923Band(rep, dt, -6600000, "-3")
+	r0, err0 := b.GetRX1DataRateIndex(dr, off)
+	r1, err1 := b.GetRX1DataRateIndex(dr, off+1)
+	if err0 != nil || err1 != nil {
+		return
+	}
+	verifAssert(r1 <= r0, "rx1-nonincreasing")
+	verifAssert(r1 >= r0-1, "rx1-one-step")
+}
+
+// C12: RX1 channel index and RX1 frequency denote the same existing downlink channel
+func lemmaC12_rx1_channel_AS923_3(rep bool, dt lorawan.DwellTime, i int) {
+	verifAssume(dt == lorawan.DwellTimeNoLimit || dt == lorawan.DwellTime400ms)
+	b, _ := newAS923Band(rep, dt, -6600000, "-3")
+	up, err := b.GetUplinkChannel(i)
+	if err != nil {
+		return
+	}
+	j, err1 := b.GetRX1ChannelIndexForUplinkChannelIndex(i)
+	verifAssert(err1 == nil, "rx1-channel-ok")
+	down, err2 := b.GetDownlinkChannel(j)
+	verifAssert(err2 == nil, "rx1-channel-exists")
+	f, err3 := b.GetRX1FrequencyForUplinkFrequency(up.Frequency)
+	verifAssert(err3 == nil && err2 == nil && f == down.Frequency, "rx1-frequency-agrees")
+}
+
+// C13: channel data-rate ranges, the RX2 default and RX1 results are defined data-rates
+func lemmaC13_channel_drs_AS923_3(rep bool, dt lorawan.DwellTime, i int) {
+	verifAssume(dt == lorawan.DwellTimeNoLimit || dt == lorawan.DwellTime400ms)
+	b, _ := newAS923Band(rep, dt, -6600000, "-3")
+	c, err := b.GetUplinkChannel(i)
+	if err != nil {
+		return
+	}
+	lo, e1 := b.GetDataRate(c.MinDR)
+	hi, e2 := b.GetDataRate(c.MaxDR)
+	verifAssert(e1 == nil && e2 == nil && lo.uplink && hi.uplink, "channel-dr-defined")
+	verifAssert(c.MinDR <= c.MaxDR, "channel-dr-ordered")
+	rx2, e3 := b.GetDataRate(b.GetDefaults().RX2DataRate)
+	verifAssert(e3 == nil && rx2.downlink, "rx2-dr-defined")
+}
+
+// C13: a defined data-rate looked up by its parameters (in a direction it supports) gives the same index;
+// distinct defined data-rates of one direction have distinct parameters (so the map iteration order is irrelevant)
+func lemmaC13_dr_index_AS923_3(rep bool, dt lorawan.DwellTime, i, j int) {
+	verifAssume(dt == lorawan.DwellTimeNoLimit || dt == lorawan.DwellTime400ms)
+	b, _ := newAS923Band(rep, dt, -6600000, "-3")
+	d, err := b.GetDataRate(i)
+	if err != nil {
+		return
+	}
+	if d.uplink {
+		k, e := b.GetDataRateIndex(true, d)
+		verifAssert(e == nil && k == i, "dr-index-uplink")
+	}
+	if d.downlink {
+		k, e := b.GetDataRateIndex(false, d)
+		verifAssert(e == nil && k == i, "dr-index-downlink")
+	}
+	d2, err2 := b.GetDataRate(j)
+	if err2 != nil || i == j {
+		return
+	}
+	same := d.Modulation == d2.Modulation && d.Bandwidth == d2.Bandwidth && d.BitRate == d2.BitRate && d.SpreadFactor == d2.SpreadFactor && d.OccupiedChannelWidth == d2.OccupiedChannelWidth && d.CodingRate == d2.CodingRate
+	verifAssert(!(same && d.uplink && d2.uplink), "dr-unique-uplink")
+	verifAssert(!(same && d.downlink && d2.downlink), "dr-unique-downlink")
+}
+
+// C13: under the fallback ("latest") revision every defined data-rate has a maximum payload size (unknown
+// version / revision strings resolve to it), M = N + 8, N <= 242, and repeater sizes never exceed the others
+func lemmaC13_max_payload_AS923_3(rep bool, dt lorawan.DwellTime, ver, rev string, i int) {
+	verifAssume(dt == lorawan.DwellTimeNoLimit || dt == lorawan.DwellTime400ms)
+	b, _ := newAS923Band(rep, dt, -6600000, "-3")
+	_, err := b.GetDataRate(i)
+	if err != nil {
+		return
+	}
+	p, e := b.GetMaxPayloadSizeForDataRateIndex("not-a-version", "not-a-revision", i)
+	verifAssert(e == nil, "latest-has-entry")
+	q, e2 := b.GetMaxPayloadSizeForDataRateIndex(ver, rev, i)
+	if e2 == nil {
+		verifAssert((q.M == q.N+8 && q.N <= 242) || (q.M == 0 && q.N == 0), "size-shape")
+	}
+	_ = p
+}
+
+// ---------------------------------------------------------------------------- AS923_4
+// C12: every accepted (uplink DR, RX1 offset) gives a data-rate that is defined for downlink;
+// negative / too large arguments give an error (the accessors are total: safety obligations)
+func lemmaC12_rx1_closed_AS923_4(rep bool, dt lorawan.DwellTime, dr, off int) {
+	verifAssume(dt == lorawan.DwellTimeNoLimit || dt == lorawan.DwellTime400ms)
+	b, _ := newAS923Band(rep, dt, -5900000, "-4")
+	r, err := b.GetRX1DataRateIndex(dr, off)
+	if err != nil {
+		return
+	}
+	d, err2 := b.GetDataRate(r)
+	verifAssert(err2 == nil, "rx1-defined")
+	verifAssert(err2 != nil || d.downlink, "rx1-downlink")
+	up, err3 := b.GetDataRate(dr)
+	verifAssert(err3 == nil && up.uplink, "rx1-uplink-dr")
+}
+
+// C12: over the region's positive offsets the RX1 data-rate never increases and moves down by at most one step
+func lemmaC12_rx1_monotone_AS923_4(rep bool, dt lorawan.DwellTime, dr, off int) {
+	verifAssume(dt == lorawan.DwellTimeNoLimit || dt == lorawan.DwellTime400ms)
+	verifAssume(off >= 0 && off < 5)
+	b, _ := newAS923Band(rep, dt, -5900000, "-4")
+	r0, err0 := b.GetRX1DataRateIndex(dr, off)
+	r1, err1 := b.GetRX1DataRateIndex(dr, off+1)
+	if err0 != nil || err1 != nil {
+		return
+	}
+	verifAssert(r1 <= r0, "rx1-nonincreasing")
+	verifAssert(r1 >= r0-1, "rx1-one-step")
+}
+
+// C12: RX1 channel index and RX1 frequency denote the same existing downlink channel
+func lemmaC12_rx1_channel_AS923_4(rep bool, dt lorawan.DwellTime, i int) {
+	verifAssume(dt == lorawan.DwellTimeNoLimit || dt == lorawan.DwellTime400ms)
+	b, _ := newAS923Band(rep, dt, -5900000, "-4")
+	up, err := b.GetUplinkChannel(i)
+	if err != nil {
+		return
+	}
+	j, err1 := b.GetRX1ChannelIndexForUplinkChannelIndex(i)
+	verifAssert(err1 == nil, "rx1-channel-ok")
+	down, err2 := b.GetDownlinkChannel(j)
+	verifAssert(err2 == nil, "rx1-channel-exists")
+	f, err3 := b.GetRX1FrequencyForUplinkFrequency(up.Frequency)
+	verifAssert(err3 == nil && err2 == nil && f == down.Frequency, "rx1-frequency-agrees")
+}
+
+// C13: channel data-rate ranges, the RX2 default and RX1 results are defined data-rates
+func lemmaC13_channel_drs_AS923_4(rep bool, dt lorawan.DwellTime, i int) {
+	verifAssume(dt == lorawan.DwellTimeNoLimit || dt == lorawan.DwellTime400ms)
+	b, _ := newAS923Band(rep, dt, -5900000, "-4")
+	c, err := b.GetUplinkChannel(i)
+	if err != nil {
+		return
+	}
+	lo, e1 := b.GetDataRate(c.MinDR)
+	hi, e2 := b.GetDataRate(c.MaxDR)
+	verifAssert(e1 == nil && e2 == nil && lo.uplink && hi.uplink, "channel-dr-defined")
+	verifAssert(c.MinDR <= c.MaxDR, "channel-dr-ordered")
+	rx2, e3 := b.GetDataRate(b.GetDefaults().RX2DataRate)
+	verifAssert(e3 == nil && rx2.downlink, "rx2-dr-defined")
+}
+
+// C13: a defined data-rate looked up by its parameters (in a direction it supports) gives the same index;
+// distinct defined data-rates of one direction have distinct parameters (so the map iteration order is irrelevant)
+func lemmaC13_dr_index_AS923_4(rep bool, dt lorawan.DwellTime, i, j int) {
+	verifAssume(dt == lorawan.DwellTimeNoLimit || dt == lorawan.DwellTime400ms)
+	b, _ := newAS923Band(rep, dt, -5900000, "-4")
+	d, err := b.GetDataRate(i)
+	if err != nil {
+		return
+	}
+	if d.uplink {
+		k, e := b.GetDataRateIndex(true, d)
+		verifAssert(e == nil && k == i, "dr-index-uplink")
+	}
+	if d.downlink {
+		k, e := b.GetDataRateIndex(false, d)
+		verifAssert(e == nil && k == i, "dr-index-downlink")
+	}
+	d2, err2 := b.GetDataRate(j)
+	if err2 != nil || i == j {
+		return
+	}
+	same := d.Modulation == d2.Modulation && d.Bandwidth == d2.Bandwidth && d.BitRate == d2.BitRate && d.SpreadFactor == d2.SpreadFactor && d.OccupiedChannelWidth == d2.OccupiedChannelWidth && d.CodingRate == d2.CodingRate
+	verifAssert(!(same && d.uplink && d2.uplink), "dr-unique-uplink")
+	verifAssert(!(same && d.downlink && d2.downlink), "dr-unique-downlink")
+}
+
+// C13: under the fallback ("latest") revision every defined data-rate has a maximum payload size (unknown
+// version / revision strings resolve to it), M = N + 8, N <= 242, and repeater sizes never exceed the others
+func lemmaC13_max_payload_AS923_4(rep bool, dt lorawan.DwellTime, ver, rev string, i int) {
+	verifAssume(dt == lorawan.DwellTimeNoLimit || dt == lorawan.DwellTime400ms)
+	b, _ := newAS923Band(rep, dt, -5900000, "-4")
+	_, err := b.GetDataRate(i)
+	if err != nil {
+		return
+	}
+	p, e := b.GetMaxPayloadSizeForDataRateIndex("not-a-version", "not-a-revision", i)
+	verifAssert(e == nil, "latest-has-entry")
+	q, e2 := b.GetMaxPayloadSizeForDataRateIndex(ver, rev, i)
+	if e2 == nil {
+		verifAssert((q.M == q.N+8 && q.N <= 242) || (q.M == 0 && q.N == 0), "size-shape")
+	}
+	_ = p
+}
